@@ -287,6 +287,15 @@ func runC01(ctx *Ctx) {
 		runC01Big(ctx)
 		return
 	}
+	if ctx.Idx%12 == 5 {
+		// in addition to the case of this index: a history of commits from the branch's configured file
+		// and key (c02.go), from a random stream of its own. After every step the export holds the rows
+		// of the file then configured, keyed by the key then in force
+		defer func() {
+			in, tags := genHistory(histRand(ctx), ctx.Idx/12, ctx.Thorough())
+			emitHistory(ctx, "export-history", in, tags...)
+		}()
+	}
 	t, rs, w, comma, tags := genIngestSpec(ctx.R, ctx.Thorough())
 	if ctx.Idx%12 == 11 && cliSafe(t) && len(t.PK) > 0 {
 		// commit from the branch's configured file, edited 100..900 ms after the cached temporary commit
@@ -317,6 +326,10 @@ func corpusC01(ctx *Ctx, op string, raw json.RawMessage) {
 			panic(err)
 		}
 		ctx.Emit("ingest-big", &in, c01BigRun(&in), true, "corpus")
+		return
+	}
+	if op == "export-history" {
+		corpusHistory(ctx, op, raw)
 		return
 	}
 	var in ingestInput
@@ -404,6 +417,14 @@ func cloneSpec(t *TableSpec) *TableSpec {
 }
 
 func runC02(ctx *Ctx) {
+	if ctx.Idx%6 == 5 {
+		// in addition to the case of this index: the identifier as the commit command sees it, over a
+		// history of commits from the branch's configured file and key (c02.go; a random stream of its own)
+		defer func() {
+			in, tags := genHistory(histRand(ctx), ctx.Idx/6, ctx.Thorough())
+			emitHistory(ctx, "cli-ids", in, tags...)
+		}()
+	}
 	r := ctx.R
 	nCols := 1 + r.Intn(4)
 	pk := genPK(r, nCols)
@@ -614,6 +635,10 @@ func c02Case(ctx *Ctx, t *TableSpec, tags ...string) {
 }
 
 func corpusC02(ctx *Ctx, op string, raw json.RawMessage) {
+	if op == "cli-ids" {
+		corpusHistory(ctx, op, raw)
+		return
+	}
 	var in c02Input
 	if err := json.Unmarshal(raw, &in); err != nil {
 		panic(err)
